@@ -156,12 +156,14 @@ func (b *RecordBatch) decode(pd packetDecoder) (err error) {
 		return err
 	}
 
-	numRecs, err := pd.getArrayLength()
+	// the records that follow may be compressed: their count is checked against the decompressed
+	// size below, not (as getArrayLength would) against the bytes that remain in the packet
+	numRecs, err := pd.getInt32()
 	if err != nil {
 		return err
 	}
-	if numRecs >= 0 {
-		b.Records = make([]*Record, numRecs)
+	if numRecs < -1 {
+		return errInvalidArrayLength
 	}
 
 	bufSize := int(batchLen) - recordBatchOverhead
@@ -185,6 +187,16 @@ func (b *RecordBatch) decode(pd packetDecoder) (err error) {
 	}
 
 	b.recordsLen = len(recBuffer)
+	// every record takes at least one byte: more records than bytes is the same as running out of
+	// data while decoding them
+	if int(numRecs) > len(recBuffer) {
+		b.PartialTrailingRecord = true
+		return nil
+	}
+	if numRecs >= 0 {
+		b.Records = make([]*Record, numRecs)
+	}
+
 	err = decode(recBuffer, recordsArray(b.Records))
 	if err == ErrInsufficientData {
 		b.PartialTrailingRecord = true
